@@ -37,6 +37,7 @@ type matchKey struct {
 	size        int
 	ntoks       int
 	outOfDomain bool
+	accg        bool
 	outs        []allowed
 }
 
@@ -54,7 +55,7 @@ func runMatch() {
 		k := keys[gt+"\x00"+it]
 		if k == nil {
 			k = &matchKey{gram: gt, input: it, shape: grammarShape(c.G), ops: grammarOps(c.G), idx: idx,
-				size: grammarSize(c.G), ntoks: len(c.Inp)}
+				size: grammarSize(c.G), ntoks: len(c.Inp), accg: c.Accg}
 			keys[gt+"\x00"+it] = k
 			order = append(order, k)
 		}
@@ -66,8 +67,11 @@ func runMatch() {
 		if a.ok {
 			a.n, a.val = c.N, c.Val.String()
 		}
-		for _, b := range k.outs {
+		for j := range k.outs {
+			b := &k.outs[j]
 			if b.ok == a.ok && b.n == a.n && b.val == a.val {
+				b.code = b.code || a.code
+				b.undoc = b.undoc && a.undoc
 				return
 			}
 		}
@@ -111,8 +115,13 @@ func runMatch() {
 		case "not-run":
 			res.V, res.Detail = "skip", "too many non-returning matches already reported"
 		case "rejected":
-			res.V, res.Sig = "drift", "model-accepts-code-rejects"
-			res.Detail = fmt.Sprintf("%q: %s", k.gram, o.Res.Err)
+			if !k.accg {
+				// a left-recursive rule the match never reaches: the repaired compile-time analysis rejects the grammar
+				res.V, res.Detail = "skip", "grammar rejected at compile time (left-recursive rule): outside C29's domain on this tree"
+			} else {
+				res.V, res.Sig = "drift", "model-accepts-code-rejects"
+				res.Detail = fmt.Sprintf("%q: %s", k.gram, o.Res.Err)
+			}
 		case "result":
 			if o.Res.Panic != "" {
 				fails = append(fails, matchFail{k, "panic", fmt.Sprintf("grammar %q input %q: Match panics: %s; README: %s",
